@@ -70,10 +70,18 @@ def fit_case(draw, tier):
             "scalar_mode": draw(st.booleans())}
 
 
+RHO_SCALES = [1.0, 1.0, 1.15, 1.3, 0.8]
+
+
 def _coords(case):
     if case["coords"] == "default":
         return {}
     rho, theta = lentil.zernike_coordinates(case["mask"], shift=tuple(case["shift"]), rotate=case["rotate"])
+    # coordinates normalised to another radius than the farthest masked sample (the circle inscribed in a hexagon, a
+    # clear aperture smaller than the mask): rho reaches 1.15 .. 1.3 inside the mask, or stays below 0.8
+    sc = RHO_SCALES[(int(case["mask"].shape[0]) + 2 * int(case["mask"].shape[1]) + len(case["modes"]) + int(abs(case["shift"][0]) * 8)) % len(RHO_SCALES)]
+    if sc != 1.0:
+        rho = rho * sc
     return {"rho": rho, "theta": theta}
 
 
@@ -97,6 +105,7 @@ def _setup(case, ctx):
     contiguous = modes == list(range(1, len(modes) + 1))
     ctx.tag("mask:" + case["kind"], "mask_values:" + case.get("mask_form", "int01"), "noncontiguous" if not contiguous else "modes_1..k",
             "unordered" if modes != sorted(modes) else None, "custom_coords" if kw else "default_coords",
+            ("rho_beyond_1" if float(np.max(kw["rho"][mask != 0])) > 1 + 1e-9 else "rho_within_1") if kw else None,
             "normalize" if case["normalize"] else "raw", f"k:{len(modes)}", gen.parity_tags("m", mask.shape))
     ctx.nontrivial_if(not contiguous)
     return kw, B, cond
@@ -163,7 +172,9 @@ def remove(case, ctx):
     noise = rng.normal(size=mask.shape)
     opd = pure + noise            # noise also outside the mask
     eps = np.finfo(float).eps
-    scale = float(np.max(np.abs(c))) * len(c) + np.max(np.abs(noise)) + 1e-300
+    # (with caller coordinates reaching beyond rho = 1 the modes themselves exceed 1 by far: the scale of the data is
+    # what the composed surface actually reaches)
+    scale = max(float(np.max(np.abs(c))) * len(c), float(np.max(np.abs(pure)))) + np.max(np.abs(noise)) + 1e-300
     tol = cond * 512 * eps * scale * np.sqrt(mask.size)
     marg = modes[0] if (len(modes) == 1 and case["scalar_mode"]) else gen.as_container(modes, sum(modes) + int(mask.shape[1]), array_like=True)[0]
     opd = gen.relayout(opd, ["C", "F", "strided", "transposed_view"][len(modes) % 4])
